@@ -134,6 +134,35 @@ def ob_trend(g, k, dname, idx):
     return f
 
 
+def ob_trend_out_of_range(k_sizes, dname):
+    """a rank at or beyond the size of a requested generation has no idx-th best agent: the utilities must not return
+    a value for it (generations of different sizes: shrinking populations)"""
+    direction = DIRS[dname]
+
+    def f():
+        with env(allow_seed=True):
+            gens = [[agent((j, i), sym.real(f"c{j}.{i}"), fitness=0.5) for i in range(k)] for j, k in enumerate(k_sizes)]
+            opt = Scripted(M.BaseOptimizationConfig(population_size=k_sizes[0], fitness_error=None,
+                                                    max_cycles=len(k_sizes) - 1),
+                           init=lambda o: list(gens[0]), step=lambda o, c: setattr(o, "_population", list(gens[c])))
+            res = opt.optimize(make_task([cont()], lambda x, i: 0.0, minmax=direction))
+            for g, k in enumerate(k_sizes):
+                for idx in (k, k + 1):
+                    for fn in (U.agent_trend, U.agent_position):
+                        try:
+                            got = fn(res, idx, [g])
+                        except IndexError:
+                            continue
+                        return Failure("a-rank-beyond-the-generation-returns-a-value", utility=fn.__name__, idx=idx,
+                                       generation=g, size=k, got=got)
+                for idx in range(k):          # ranks inside a smaller generation are still the idx-th best
+                    tr = U.agent_trend(res, idx, [g])
+                    if not is_idx_th_best(tr[0], idx, costs_of(res.evolution[g].agents), direction):
+                        return Failure("agent_trend-is-not-the-idx-th-best-in-the-task-direction", idx=idx, generation=g)
+            return OK
+    return f
+
+
 def twin():
     def f():
         with env(allow_seed=True):
@@ -149,6 +178,8 @@ def obligations(tier):
         for d in ("min", "max"):
             for k, cycles in ((2, 2),) + (((3, 2), (2, 3)) if th else ((3, 1),)):
                 obs.append(Ob(f"history[{op},k={k},cycles={cycles},{d}]", ob_history(op, k, cycles, d), 600))
+    for d in ("min", "max"):
+        obs.append(Ob(f"trend_out_of_range[sizes=3-2-1,{d}]", ob_trend_out_of_range((3, 2, 1), d), 600))
     for d in ("min", "max"):          # live population larger / smaller than the configured population_size
         obs.append(Ob(f"history[rebind,k=3,cycles=1,{d},ps=2]", ob_history("rebind", 3, 1, d, ps=2), 600))
         obs.append(Ob(f"history[rebind,k=2,cycles=1,{d},ps=5]", ob_history("rebind", 2, 1, d, ps=5), 600))
